@@ -597,6 +597,12 @@ def step (d : DState) (line : String) : IO DState := do
     | some v => out s!"pname ok {v}"
     | none => out "pname err"
     return d
+  | "encw" :: _ :: rec =>
+    -- the encoding does not depend on how the writer accepts the bytes
+    match parseRecord rec with
+    | some r => out s!"enc {hexOfBytes (encRecord r)}"
+    | none => out "bad-op"
+    return d
   | "enc" :: rec =>
     match parseRecord rec with
     | some r => out s!"enc {hexOfBytes (encRecord r)}"
